@@ -43,19 +43,34 @@ type Op struct {
 	Val    Value
 }
 
-// FailSpec tells the bottom writer when to fail.
+// FailSpec tells the bottom writer when to fail, and with WHICH error value.
 type FailSpec struct {
 	From      int  // index of the first failing Write call on the bottom writer, -1 = never
 	Partial   int  // bytes accepted by that call (clamped to what was offered)
 	Transient bool // only that call fails
+	// Err names the error VALUE a failing Write returns: "" = a fresh private value per failing
+	// call; otherwise one of ErrValues (sentinels of net/http, io, net — the same value every time —
+	// or a fresh error wrapping one of them): what a real connection hands up
+	Err string
+	// HTTPLike: the bottom writer refuses a body the way net/http's does — once the status it
+	// received (first WriteHeader, 200 at the first Write) is one that does not allow a body (1xx,
+	// 204, 304) every Write answers (0, http.ErrBodyNotAllowed); independent of From
+	HTTPLike bool
 }
 
 // Seq is one case.
 type Seq struct {
-	Mode   string // direct | direct-gzip | direct-deflate | route | route-gzip | route-deflate
+	Mode   string // direct | direct-gzip | direct-deflate | route | route-gzip | route-deflate | route-miss
 	Stream string // main (generated to obey the discipline) | free
 	Ops    []Op
 	Fail   FailSpec
+	// route-miss only: why route selection fails (404 | 405 | 406 | 415), and who then makes the
+	// calls: "custom" = a ServiceErrorHandler installed with Container.ServiceErrorHandler performs
+	// Ops on the Response it is given; "default" = the container's own handler (Ops is then the one
+	// WriteErrorString it is measured to make, see MissFacts)
+	Miss    string
+	Handler string
+	JSR     bool // route-miss only: RouterJSR311 instead of the default CurlyRouter
 }
 
 func (s Seq) Coding() string {
@@ -205,6 +220,34 @@ func (s Seq) Human() map[string]interface{} {
 		} else {
 			fail += ", and every later call (accepting 0)"
 		}
+		if s.Fail.Err == "" {
+			fail += "; every failing call returns a fresh private error value"
+		} else {
+			fail += "; the error returned is " + ErrValueHuman(s.Fail.Err)
+		}
 	}
-	return map[string]interface{}{"mode": s.Mode, "stream": s.Stream, "calls": calls, "failure": fail}
+	if s.Fail.HTTPLike {
+		if s.Fail.From < 0 {
+			fail = "the bottom writer fails"
+		} else {
+			fail += "; besides, it fails"
+		}
+		fail += " the way net/http's writer does: after a status that allows no body (1xx, 204, 304) every Write returns (0, http.ErrBodyNotAllowed)"
+	}
+	h := map[string]interface{}{"mode": s.Mode, "stream": s.Stream, "calls": calls, "failure": fail}
+	if s.Mode == "route-miss" {
+		h["request"] = MissHuman(s.Miss)
+		if s.JSR {
+			h["router"] = "RouterJSR311"
+		} else {
+			h["router"] = "CurlyRouter (default)"
+		}
+		if s.Handler == "default" {
+			h["calls_made_by"] = "the container's default ServiceErrorHandler (the call listed is what it is measured to do)"
+		} else {
+			h["calls_made_by"] = "a ServiceErrorHandler installed with Container.ServiceErrorHandler, on the Response it is handed"
+		}
+		h["observer"] = "a container filter reads resp.StatusCode()/resp.ContentLength() after chain.ProcessFilter returned"
+	}
+	return h
 }
